@@ -113,6 +113,11 @@ Definition judge03 (d : dconfig) (ctx : json) (r : request) (resp : json) : bool
             match obj_get "error" resp with
             | Some e => json_equiv e (error_obj ServerError_code ServerError_message None) | None => false end
             && leak_free resp
+        | BRpcArgs =>
+            (* the error raised is determined by THIS call's arguments, whatever the same method raised before *)
+            match rmethod_of m ctx (r_params r), obj_get "error" resp with
+            | MRan _ (ORpc x), Some e => json_equiv e (error_obj (e_code x) (e_msg x) (e_data x))
+            | _, _ => false end
         | BRet v => match obj_get "result" resp, obj_get "error" resp with Some x, None => json_equiv x v | _, _ => false end
         | BEnv => match obj_get "result" resp, obj_get "error" resp with Some _, None => true | _, _ => false end
         end
